@@ -487,6 +487,9 @@ def do_path(S, op, i, base_seed, check):
                            datafit=pr.loss.name, fi=pr.fit_intercept), i)
 
 
+EPS32 = float(np.finfo(np.float32).eps)
+
+
 def do_compare(S, op, i):
     """C10: two replicas of the same fit that differ only in how X is stored."""
     ra, rb = S.last_fit.get(op["a"]), S.last_fit.get(op["b"])
@@ -522,7 +525,11 @@ def do_compare(S, op, i):
     exact = crit == "subdiff" and cls != "SqrtLasso"
     margin = max(objective_margin(pr, wa, ba, dist, tol, crit, exact, Pa),
                  objective_margin(pr, wb, bb, dist, tol, crit, exact, Pb)) \
-        + (100 * EPS * S.hist_c * scale + ((2e-5 * scale + 1e-4 * (1 + abs(Pa))) if f32 else 0.0)) * (1 + dist)
+        + (100 * EPS * S.hist_c * scale + ((2e-5 * scale + 1e-4 * (1 + abs(Pa))) if f32 else 0.0)
+           # single precision: an extrapolated point is a combination of rounded iterates with
+           # coefficients c, so coefficients and model fit disagree by up to eps32 * sum|c| * scale
+           # from then on (measured: sum|c| = 4e5 gives 0.14 on data of size 8)
+           + (EPS32 * S.hist_c * scale if f32 else 0.0)) * (1 + dist)
     if abs(Pa - Pb) > margin:
         S.add(["C10"], "storage_objective", (cls, "objective_differs_across_storage"),
               dict(P_a=float(Pa), P_b=float(Pb), margin=float(margin), dist=dist, tol=tol),
